@@ -158,7 +158,7 @@ impl Prop for C14Prop {
             Stream::random("any", if q { 6000 } else { 80000 }, 400),
             Stream::random("any_chk", if q { 1500 } else { 15000 }, 400).chk(),
         ];
-        v.extend(crate::props::wf::wf_streams(tier, 1));
+        v.extend(crate::props::wf::wf_streams(tier, 3));
         if !q {
             v.push(Stream::exhaustive("sigma4", soup::space_size(4)));
         }
